@@ -140,7 +140,10 @@ func (g *gen) str() string {
 // num: a 7-digit integer unique within the case.
 func (g *gen) num() int64 {
 	k := g.next()
-	return 1000000 + int64(k%800)*10007 + int64(g.payload("num", 10007))
+	// one block of 10007 numbers per drawn value, without wrap-around: cases with more than 800
+	// values (1100-element lists) must not repeat a number, or a bound value could equal a number
+	// that is legitimately part of the text (the literal LIMIT of the SQLite dialector)
+	return 1000000 + int64(k)*10007 + int64(g.payload("num", 10007))
 }
 
 func (g *gen) strVal(kinds ...string) Val {
